@@ -73,9 +73,11 @@ class Scn:
         return "== %s\n%s\n%s\n%s\nend\n" % (self.sid, "\n".join(tags) if tags else "# tag: plain", "\n".join(self.decl), "\n".join(self.prog))
 
 
-def world(s, rng, lat=None, bw=None, mtu=None, cap=0):
+def world(s, rng, lat=None, bw=None, mtu=None, cap=0, proxy_v6=False):
     lat = lat if lat is not None else rng.choice([1000, 100000, MS, MS, 5 * MS, 20 * MS])
-    s.decl += ["node n0 %s,%s" % (CLIENT4, CLIENT6), "node n1 %s,%s" % (PROXY4, PROXY6),
+    # the proxy listens on the wildcard of the family of its node's FIRST address
+    s.proxy_v6 = proxy_v6
+    s.decl += ["node n0 %s,%s" % (CLIENT4, CLIENT6), ("node n1 %s,%s" % (PROXY6, PROXY4)) if proxy_v6 else ("node n1 %s,%s" % (PROXY4, PROXY6)),
                "node n2 %s,%s" % (ORIG4, ORIG6), "node n3 %s,%s" % (ORIGB4, ORIGB6)]
     k = 0
     for ips in ((CLIENT4, CLIENT6), (PROXY4, PROXY6), (ORIG4, ORIG6), (ORIGB4, ORIGB6)):
@@ -198,12 +200,13 @@ def scenario(rng, sid, tier, clean=False):
     clean=False: everything (the classes of the repaired defects F26a-g included)."""
     s = Scn(sid)
     mtu = rng.choice([None, None, None, 100, 41, 1475, 500])
-    world(s, rng, mtu=mtu)
+    world(s, rng, mtu=mtu, proxy_v6=(not clean and rng.random() < 0.15))
+    if s.proxy_v6: s.tags.append("proxy_v6")
     lat = s.lat
     s.decl += ["dns origin.test err=ok lat=%d ips=%s" % (rng.choice([0, 1000, 5 * MS, 50 * MS]), ORIG4),
                "dns www.example.com err=ok lat=%d ips=%s,%s" % (rng.choice([0, 10 * MS]), ORIGB4, ORIG4),
                "dns v6.test err=ok lat=1000 ips=%s" % ORIG6,
-               "dns nx.test err=host_not_found lat=%d ips=" % rng.choice([0, 20 * MS]),
+               "dns nx.test err=%s lat=%d ips=" % (rng.choice(["host_not_found", "host_not_found", "other"]), rng.choice([0, 20 * MS])),
                "dns empty.test err=ok lat=1000 ips="]
     proxy(s)
     nclients = rng.choice([1, 1, 2, 2, 3])
@@ -276,8 +279,9 @@ def scenario(rng, sid, tier, clean=False):
         gaps = [rng.choice([0, 0, 0, 1000, 2 * lat, 3 * MS, 60 * MS]) for _ in pieces]
         close_at = rng.choice([None, None, start + sess_len // 2, start + sess_len - 10 * MS])
         if clean and close_at is None and c + 1 < nclients: close_at = start + sess_len // 2
-        client(s, start, pieces, gaps, close_at=close_at, close_on_eof=rng.random() < 0.9,
-               family=rng.choice(["v4", "v4", "v4", "v6"]))
+        fam = rng.choice(["v4", "v4", "v4", "v6"])
+        if s.proxy_v6: fam = rng.choice(["v6", "v6", "v6", "v4"])
+        client(s, start, pieces, gaps, close_at=close_at, close_on_eof=rng.random() < 0.9, family=fam)
         nxt = sess_len if clean else rng.choice([sess_len, sess_len, sess_len // 2, 20 * MS])
         if nxt < sess_len and c + 1 < nclients: s.tags.append("overlap")
         T = start + nxt
@@ -285,7 +289,9 @@ def scenario(rng, sid, tier, clean=False):
     if r < 0.25: s.at(rng.randrange(0, max(1, T // MS)) * MS, ["x0.stop"]); s.tags.append("stop")
     elif r < 0.3: s.do("top", "x0.stop"); s.tags.append("stop")
     s.do("top", "run")
-    if rng.random() < 0.3: s.do("top", "x0.destroy")
+    r = rng.random()
+    if r < 0.3: s.do("top", "x0.destroy")
+    if r < 0.1: s.do("top", "run"); s.tags.append("destroy_run")
     return s.text()
 
 
